@@ -256,6 +256,30 @@ func (env *specEnv) ident(name string) Value {
 	case "nil":
 		return Value{T: types.Typ[types.UntypedNil]}
 	}
+	if name == "rangelen" && env.fr != nil {
+		// the length the innermost live range-over-slice loop iterates to (evaluated once, before the loop)
+		if a := env.localAlloc("rangeindex"); a != nil {
+			for _, b := range env.fr.fn.Blocks {
+				for _, in := range b.Instrs {
+					st, ok := in.(*ssa.Store)
+					if !ok || st.Addr != ssa.Value(a) {
+						continue
+					}
+					for _, in2 := range b.Instrs {
+						if bo, ok := in2.(*ssa.BinOp); ok && bo.Op == token.LSS {
+							if v, ok := env.fr.vals[bo.Y]; ok {
+								return v
+							}
+							if c, ok := bo.Y.(*ssa.Const); ok {
+								return x.constValue(c.Type(), c.Value)
+							}
+						}
+					}
+				}
+			}
+		}
+		unsup("rangelen: no live range loop")
+	}
 	if name == "rangeint" {
 		// the counter of a range-over-integer loop (completed iterations at the loop head)
 		name = "rangeint.iter"
